@@ -23,6 +23,7 @@ import (
 	"github.com/cloudwego/eino/callbacks"
 	"github.com/cloudwego/eino/components/document"
 	"github.com/cloudwego/eino/compose"
+	"github.com/cloudwego/eino/internal/gkit"
 	"github.com/cloudwego/eino/internal/vkit"
 	rapid "github.com/cloudwego/eino/internal/vrapid"
 	"github.com/cloudwego/eino/schema"
@@ -82,6 +83,10 @@ type CaseC16 struct {
 	Calls      []Call16 `json:"calls"`
 	Concurrent bool     `json:"concurrent"`
 	Stream     bool     `json:"stream,omitempty"` // call through Stream instead of Invoke
+	// Resume: path of a leaf inside a nested graph.  That graph is compiled with interrupt-before the leaf; every
+	// call is then a pair: a first call without options that is interrupted there (checkpoint written), and the
+	// resuming call, which carries the options - they must reach what runs in the resumed call.
+	Resume []string `json:"resume,omitempty"`
 }
 
 type rec16 struct {
@@ -125,7 +130,7 @@ func addNode16(adder interface {
 	AddLambdaNode(key string, node *compose.Lambda, opts ...compose.GraphAddNodeOpt) error
 	AddDocumentTransformerNode(key string, node document.Transformer, opts ...compose.GraphAddNodeOpt) error
 	AddGraphNode(key string, node compose.AnyGraph, opts ...compose.GraphAddNodeOpt) error
-}, n Node16, path string) error {
+}, n Node16, path string, intr string) error {
 	p := path + n.Key
 	nopts := []compose.GraphAddNodeOpt{compose.WithNodeName(p)}
 	if n.Keyed {
@@ -168,9 +173,12 @@ func addNode16(adder interface {
 	case "T":
 		return adder.AddDocumentTransformerNode(n.Key, &transformer16{path: p}, nopts...)
 	case "G", "W":
-		sub, err := build16(n.Sub, p+"/", n.Kind)
+		sub, err := build16(n.Sub, p+"/", n.Kind, intr)
 		if err != nil {
 			return err
+		}
+		if strings.HasPrefix(intr, p+"/") && !strings.Contains(intr[len(p)+1:], "/") {
+			nopts = append(nopts, compose.WithGraphCompileOptions(compose.WithInterruptBeforeNodes([]string{intr[len(p)+1:]})))
 		}
 		return adder.AddGraphNode(n.Key, sub, nopts...)
 	}
@@ -196,13 +204,13 @@ func (w *wfAdapter) AddGraphNode(key string, node compose.AnyGraph, opts ...comp
 }
 
 // build16 builds a linear graph (or workflow) START -> n0 -> ... -> END.
-func build16(nodes []Node16, path string, kind string) (compose.AnyGraph, error) {
+func build16(nodes []Node16, path string, kind string, intr string) (compose.AnyGraph, error) {
 	if kind == "W" {
 		wf := compose.NewWorkflow[docs, docs]()
 		ad := &wfAdapter{wf: wf, nodes: map[string]*compose.WorkflowNode{}}
 		prev := compose.START
 		for _, n := range nodes {
-			if err := addNode16(ad, n, path); err != nil {
+			if err := addNode16(ad, n, path, intr); err != nil {
 				return nil, err
 			}
 			ad.nodes[n.Key].AddInput(prev)
@@ -214,7 +222,7 @@ func build16(nodes []Node16, path string, kind string) (compose.AnyGraph, error)
 	g := compose.NewGraph[docs, docs]()
 	prev := compose.START
 	for _, n := range nodes {
-		if err := addNode16(g, n, path); err != nil {
+		if err := addNode16(g, n, path, intr); err != nil {
 			return nil, err
 		}
 		if err := g.AddEdge(prev, n.Key); err != nil {
@@ -334,6 +342,55 @@ func route(c CaseC16, call Call16, callID string) (map[string][]string, string) 
 	return exp, ""
 }
 
+// misuseLevels lists, for every wrongly designated path of a call, the graph level ("" = top, else the path of a
+// graph node) whose option resolution meets the offending segment.
+func misuseLevels(c CaseC16, call Call16) []string {
+	var out []string
+	level := func(path []string, kindWanted string) (string, bool) {
+		cur := c.Nodes
+		for i, seg := range path {
+			var hit *Node16
+			for j := range cur {
+				if cur[j].Key == seg {
+					hit = &cur[j]
+				}
+			}
+			lv := strings.Join(path[:i], "/")
+			if hit == nil {
+				return lv, true
+			}
+			isGraph := hit.Kind == "G" || hit.Kind == "W"
+			if i == len(path)-1 {
+				if !isGraph && kindWanted != "cb" && hit.Kind != kindWanted {
+					return lv, true
+				}
+				return "", false
+			}
+			if !isGraph {
+				return lv, true
+			}
+			cur = hit.Sub
+		}
+		return "", len(path) == 0
+	}
+	for _, o := range call.Opts {
+		var paths [][]string
+		for _, p := range [][]string{o.Path, o.Path2} {
+			if p != nil {
+				paths = append(paths, p)
+			}
+		}
+		paths = append(paths, o.Extra...)
+		paths = append(paths, o.Sibs...)
+		for _, p := range paths {
+			if lv, bad := level(p, o.Kind); bad {
+				out = append(out, lv)
+			}
+		}
+	}
+	return out
+}
+
 type cb16 struct {
 	id  string
 	rec *rec16
@@ -412,12 +469,17 @@ func checkC16(c CaseC16) (*vkit.Failure, vkit.Meta) {
 		return nil, m
 	}
 	f := vkit.Guard("panic-escaped", func() *vkit.Failure {
-		ag, err := build16(c.Nodes, "", "G")
+		intr := strings.Join(c.Resume, "/")
+		ag, err := build16(c.Nodes, "", "G", intr)
 		if err != nil {
 			return vkit.Failf("harness-build", "build failed: %v", err)
 		}
 		g := ag.(*compose.Graph[docs, docs])
-		r, err := g.Compile(context.Background())
+		var copts []compose.GraphCompileOption
+		if intr != "" {
+			copts = append(copts, compose.WithCheckPointStore(gkit.NewByteStore()))
+		}
+		r, err := g.Compile(context.Background(), copts...)
 		if err != nil {
 			return vkit.Failf("compile-rejected-wellformed-graph", "Compile failed: %v", err)
 		}
@@ -431,6 +493,25 @@ func checkC16(c CaseC16) (*vkit.Failure, vkit.Meta) {
 			}
 			kinds[n.kind] = true
 		}
+		// inResume: the unit at this path runs (starts) in the resumed call.  asLevel: the path names a graph level
+		// ("" = top) that resolves options; the levels enclosing the point of interruption run again on resume.
+		idxOf := map[string]int{}
+		for i, n := range all {
+			idxOf[n.path] = i
+		}
+		inResume := func(path string, asLevel bool) bool {
+			if intr == "" {
+				return true
+			}
+			if asLevel && (path == "" || strings.HasPrefix(intr, path+"/")) {
+				return true
+			}
+			i, ok := idxOf[path]
+			return ok && i >= idxOf[intr]
+		}
+		if intr != "" {
+			m.Labels = append(m.Labels, "options-carried-by-a-resuming-call")
+		}
 		type outcome struct {
 			rec *rec16
 			err error
@@ -439,8 +520,18 @@ func checkC16(c CaseC16) (*vkit.Failure, vkit.Meta) {
 			rec := &rec16{got: map[string][]string{}, cb: map[string][]string{}}
 			ctx := context.WithValue(context.Background(), rec16Key{}, rec)
 			callID := fmt.Sprintf("call%d", i)
+			callOpts := buildOpts(c.Calls[i], callID, rec)
+			if intr != "" {
+				cp := compose.WithCheckPointID(callID)
+				pre := &rec16{got: map[string][]string{}, cb: map[string][]string{}}
+				_, perr := r.Invoke(context.WithValue(context.Background(), rec16Key{}, pre), docs{{ID: "d"}}, cp)
+				if _, ok := compose.ExtractInterruptInfo(perr); !ok {
+					return outcome{rec, fmt.Errorf("resume-setup: the first call was not interrupted before %s: %v", intr, perr)}
+				}
+				callOpts = append(callOpts, cp)
+			}
 			if c.Stream {
-				sr, err := r.Stream(ctx, docs{{ID: "d"}}, buildOpts(c.Calls[i], callID, rec)...)
+				sr, err := r.Stream(ctx, docs{{ID: "d"}}, callOpts...)
 				if err == nil {
 					for {
 						if _, e := sr.Recv(); e != nil {
@@ -454,7 +545,7 @@ func checkC16(c CaseC16) (*vkit.Failure, vkit.Meta) {
 				}
 				return outcome{rec, err}
 			}
-			_, err := r.Invoke(ctx, docs{{ID: "d"}}, buildOpts(c.Calls[i], callID, rec)...)
+			_, err := r.Invoke(ctx, docs{{ID: "d"}}, callOpts...)
 			return outcome{rec, err}
 		}
 		outs := make([]outcome, len(c.Calls))
@@ -497,6 +588,22 @@ func checkC16(c CaseC16) (*vkit.Failure, vkit.Meta) {
 			if o.err != nil && strings.HasPrefix(o.err.Error(), "panic:") {
 				return vkit.Failf("panic-escaped", "call %d panicked: %v", i, o.err)
 			}
+			if o.err != nil && strings.HasPrefix(o.err.Error(), "resume-setup:") {
+				return vkit.Failf("interrupt-missing", "call %d: %v", i, o.err)
+			}
+			if ec != "" && intr != "" {
+				// a misuse is noticed by the graph level that resolves the offending path segment, when that level runs
+				seen := false
+				for _, lv := range misuseLevels(c, call) {
+					if inResume(lv, true) {
+						seen = true
+					}
+				}
+				if !seen {
+					m.Labels = append(m.Labels, "misuse-inside-a-graph-finished-before-the-interrupt(not judged)")
+					continue
+				}
+			}
 			if ec != "" {
 				m.Labels = append(m.Labels, "misuse:"+ec)
 				if o.err == nil {
@@ -511,6 +618,9 @@ func checkC16(c CaseC16) (*vkit.Failure, vkit.Meta) {
 			for _, n := range all {
 				if n.kind == "G" || n.kind == "W" {
 					continue
+				}
+				if !inResume(n.path, false) {
+					continue // ran in the first call of the pair
 				}
 				got := o.rec.got[n.path]
 				for _, v := range got {
@@ -550,6 +660,9 @@ func checkC16(c CaseC16) (*vkit.Failure, vkit.Meta) {
 					}
 				}
 				for _, target := range targets {
+					if !inResume(target, false) {
+						continue // started in the first call of the pair (or encloses the point of interruption)
+					}
 					if !hit[target] {
 						return &vkit.Failure{Kind: "designated-callback-not-invoked", Sig: "designated-callback-not-invoked", Msg: fmt.Sprintf("call %d: a callback designated to %v was never invoked at %s (saw %v)", i, targets, target, seen)}
 					}
@@ -675,6 +788,17 @@ func genC16(t *rapid.T) CaseC16 {
 		c.Calls = append(c.Calls, call)
 	}
 	c.Concurrent = nc >= 2 && rapid.Bool().Draw(t, "concurrent")
+	if rapid.IntRange(0, 3).Draw(t, "resume") == 0 {
+		var deep []string
+		for _, n := range all {
+			if n.kind != "G" && n.kind != "W" && strings.Contains(n.path, "/") {
+				deep = append(deep, n.path)
+			}
+		}
+		if len(deep) > 0 {
+			c.Resume = strings.Split(deep[rapid.IntRange(0, len(deep)-1).Draw(t, "resumeAt")], "/")
+		}
+	}
 	return c
 }
 
